@@ -10,8 +10,8 @@ import (
 
 func init() {
 	register("C12", ruleC12UnwrapTable, ruleC12SinksUnwrapped, ruleC12OmitFuse, ruleC12Determinism,
-		// async slots are resolved, the <- key never enters an output row (shared with C14 / C10)
-		ruleC14SlotRoundTrip, ruleC10MarkerNotCopied)
+		// async slots are resolved (also in nested evaluations), the <- key never enters an output row (shared with C14 / C10)
+		ruleC14SlotRoundTrip, ruleC14NestedWaits, ruleC10MarkerNotCopied)
 }
 
 func ruleC12UnwrapTable(c *Ctx) {
@@ -288,6 +288,18 @@ var mapOrderAllow = map[string]string{
 	"DefaultKeyFunc":               "returns the only entry: guarded by len(obj) <= 1",
 }
 
+// the kinds of order-sensitive sink each allowed site may have: a new kind (e.g. a `break` after the
+// first matching key of a join scan) is not covered by the allowance
+var mapOrderAllowedSinks = map[string][]string{
+	"(*Join).HashJoinFunc":         {"append"},
+	"(*Join).JoinFunc":             {"append"},
+	"(*Join).ParallelJoinFunc":     {"append"},
+	"(*Join).ParallelHashJoinFunc": {"append"},
+	"(*Join).JoinMatchFunc":        {"append"},
+	"ComparisonExpr":               {"return inside the loop", "break"},
+	"DefaultKeyFunc":               {"return inside the loop"},
+}
+
 func ruleC12Determinism(c *Ctx) {
 	c.Doc("c12.determinism", "nondeterminism sources reachable from New/Exec: every loop ranging over a Go map whose body feeds an order-sensitive sink (append, a return from inside the loop, a buffer/hash write) must be one of the enumerated sites the property allows (row order of joins) or a guarded single-entry read; map-to-map copies and all-keys comparisons are order-insensitive; time is read only by the function registered as timestamp; no math/rand")
 	roots := []*ssa.Function{c.P.Func(modPath, "New"), c.P.Method(modPath, "Query", "Exec")}
@@ -335,7 +347,7 @@ func ruleC12Determinism(c *Ctx) {
 				// a break right after the first entry
 				for _, s := range b.Succs {
 					if !inNaturalLoop(nx.Block(), s) && s != nx.Block() && b != nx.Block() {
-						if _, isRet := b.Instrs[len(b.Instrs)-1].(*ssa.Return); !isRet {
+						if _, isRet := b.Instrs[len(b.Instrs)-1].(*ssa.Return); !isRet && !leadsOnlyToErrorReturn(s) {
 							sinks = append(sinks, "break")
 						}
 					}
@@ -348,6 +360,19 @@ func ruleC12Determinism(c *Ctx) {
 			fk := c.P.funcKey(f)
 			c.Fn(fk)
 			reason, allowed := mapOrderAllow[fk]
+			if allowed {
+				for _, sk := range uniq(sinks) {
+					okKind := false
+					for _, a := range mapOrderAllowedSinks[fk] {
+						if a == sk || strings.Contains(sk, "Write") && a == "write" {
+							okKind = true
+						}
+					}
+					if !okKind {
+						allowed = false
+					}
+				}
+			}
 			// a break that only ends an all-keys comparison early (no value escapes) is order-insensitive
 			onlyBreak := true
 			for _, s := range sinks {
@@ -476,4 +501,41 @@ func isIterationIndependentClosure(v ssa.Value, nx *ssa.Next) bool {
 		return false
 	}
 	return !derivesFromIteration(mc, nx, 0)
+}
+
+
+// leadsOnlyToErrorReturn: every path from b ends in a return whose last result is a non-nil error
+// (leaving a loop that way is a failure, not a `break`).
+func leadsOnlyToErrorReturn(b *ssa.BasicBlock) bool {
+	seen := map[*ssa.BasicBlock]bool{}
+	q := []*ssa.BasicBlock{b}
+	n := 0
+	for len(q) > 0 {
+		x := q[0]
+		q = q[1:]
+		if seen[x] {
+			continue
+		}
+		seen[x] = true
+		n++
+		if n > 12 {
+			return false
+		}
+		if len(x.Succs) == 0 {
+			r, ok := x.Instrs[len(x.Instrs)-1].(*ssa.Return)
+			if !ok || len(r.Results) == 0 {
+				if _, isPanic := x.Instrs[len(x.Instrs)-1].(*ssa.Panic); isPanic {
+					continue
+				}
+				return false
+			}
+			last := r.Results[len(r.Results)-1]
+			if !isErrorT(last.Type()) || isNilConst(last) {
+				return false
+			}
+			continue
+		}
+		q = append(q, x.Succs...)
+	}
+	return true
 }
